@@ -301,13 +301,13 @@ type c15ShapeT struct {
 }
 
 var c15ShapeTemplates = []c15ShapeT{
-	{"colon", "grp:", "", false},          // o:order:1001 — several names share the text before the second colon
-	{"colon-tail", "", ":1001:x", false},  // two colons after the name
-	{"slash", "a/b/", "", false},          // path-like local part
-	{"hash", "doc#", "", true},            // fragment inside a slash namespace
-	{"percent", "100%25", "%20x", false},  // percent signs are data, nobody decodes them
+	{"colon", "grp:", "", false},         // o:order:1001 — several names share the text before the second colon
+	{"colon-tail", "", ":1001:x", false}, // two colons after the name
+	{"slash", "a/b/", "", false},         // path-like local part
+	{"hash", "doc#", "", true},           // fragment inside a slash namespace
+	{"percent", "100%25", "%20x", false}, // percent signs are data, nobody decodes them
 	{"unicode", "æ", "日本", false},        // non-ASCII
-	{"punct", "~", ".v2;k=1@x", false},    // unreserved / sub-delims
+	{"punct", "~", ".v2;k=1@x", false},   // unreserved / sub-delims
 }
 
 var c15KnownNs = []string{gen.NsA, gen.NsP, gen.NsR, c15NsS}
